@@ -28,6 +28,7 @@ func TestMain(m *testing.M) { evid.Main(m, "C13") }
 //	wseq      : Seq (message headers and values of any type, in any order, several messages) rendered on one Writer vs the concatenated thriftspec bytes
 //	writer    : Msg? + Tree rendered through the library's Writer methods (struct encoder's calling convention) vs thriftspec bytes
 //	marshal   : Marshal(P, Build(T,V)) vs thriftspec encoding of the logical content read off the value
+//	fuzz      : arbitrary bytes Data against static target Sel (see fuzz_test.go)
 //	readers   : thriftspec encoding of Msg? + Tree (wire order as stored, long forms per Long, header form HdrP) read back through the library's Reader methods
 //	unmarshal : thriftspec encoding of Build(T,V)'s content with fields rotated/reversed and long forms per Long, given to Unmarshal
 //
@@ -47,6 +48,8 @@ type Case struct {
 	HdrP int                 `json:"hdr_p,omitempty"` // readers: protocol whose message header form is fed (binary: strict <-> non-strict)
 	T    *tgen.TypeDesc      `json:"type,omitempty"`
 	V    *tgen.Recipe        `json:"val,omitempty"`
+	Sel  int                 `json:"sel,omitempty"`  // fuzz: index into fuzzTargets
+	Data []byte              `json:"data,omitempty"` // fuzz: the input bytes (without the selector byte)
 	Rot  int                 `json:"rot,omitempty"`
 	Rev  bool                `json:"rev,omitempty"`
 }
@@ -266,40 +269,10 @@ func checkCase(c Case, D thriftspec.Dialect) result {
 			return result{fail: &evid.Failure{Oracle: "harness", Observed: "marshal case without type/value"}}
 		}
 		return guard("Marshal", func() result {
-			v := tgen.Build(c.T, c.V)
-			tree := tgen.ToTree(c.T, v)
-			got, err := thrift.Marshal(proto(c.P), v.Interface())
-			if err != nil {
-				return result{fail: &evid.Failure{Oracle: "Marshal succeeds", Observed: err.Error(), Expected: "nil error", Class: "write-error"}}
-			}
-			enc := func(d thriftspec.Dialect) []byte { return thriftspec.Encode(p, d, tree) }
-			if !tgen.MultiMap(c.T, v) {
-				return compareBytes("Marshal("+p.String()+", v) == specification bytes of v's content "+thriftspec.Describe(tree), got, enc, D)
-			}
-			// a map with several entries has no fixed wire order: the bytes must decode
-			// (by the specification) to the same content and re-encode to themselves
-			try := func(d thriftspec.Dialect) bool {
-				dec, err := thriftspec.Decode(p, d, got, thriftspec.Struct)
-				if err != nil || !thriftspec.Same(dec, tree) {
-					return false
-				}
-				for _, fe := range []byte{0, 2} {
-					d.CompactFalseElem = fe
-					if bytes.Equal(thriftspec.Encode(p, d, dec), got) {
-						return true
-					}
-				}
-				return false
-			}
-			if try(thriftspec.Dialect{}) {
-				return result{}
-			}
-			if D != (thriftspec.Dialect{}) && try(D) {
-				return result{excl: exercised(enc, D)}
-			}
-			return result{fail: &evid.Failure{Oracle: "Marshal(" + p.String() + ", v) is a specification encoding of v's content (any map entry order)", Class: "bytes-mismatch",
-				Observed: trunc(evid.Hex(got)), Expected: trunc("an encoding of " + thriftspec.Describe(tree) + " such as " + evid.Hex(enc(D)))}}
+			return checkMarshalValue(c.T, tgen.Build(c.T, c.V), c.P, D)
 		})
+	case "fuzz":
+		return fuzzCheck(c, D)
 	case "readers":
 		if c.Tree == nil {
 			return result{fail: &evid.Failure{Oracle: "harness", Observed: "readers case without tree"}}
@@ -359,6 +332,48 @@ func checkCase(c Case, D thriftspec.Dialect) result {
 		})
 	}
 	return result{fail: &evid.Failure{Oracle: "harness", Observed: "unknown kind " + c.Kind}}
+}
+
+// checkMarshalValue: Marshal(p, v) against the specification's encoding of the
+// logical content read off v.
+func checkMarshalValue(td *tgen.TypeDesc, v reflect.Value, pi int, D thriftspec.Dialect) result {
+	p := thriftspec.Proto(pi % 3)
+	c := struct {
+		T *tgen.TypeDesc
+		P int
+	}{td, pi}
+	tree := tgen.ToTree(c.T, v)
+	got, err := thrift.Marshal(proto(c.P), v.Interface())
+	if err != nil {
+		return result{fail: &evid.Failure{Oracle: "Marshal succeeds", Observed: err.Error(), Expected: "nil error", Class: "write-error"}}
+	}
+	enc := func(d thriftspec.Dialect) []byte { return thriftspec.Encode(p, d, tree) }
+	if !tgen.MultiMap(c.T, v) {
+		return compareBytes("Marshal("+p.String()+", v) == specification bytes of v's content "+thriftspec.Describe(tree), got, enc, D)
+	}
+	// a map with several entries has no fixed wire order: the bytes must decode
+	// (by the specification) to the same content and re-encode to themselves
+	try := func(d thriftspec.Dialect) bool {
+		dec, err := thriftspec.Decode(p, d, got, thriftspec.Struct)
+		if err != nil || !thriftspec.Same(dec, tree) {
+			return false
+		}
+		for _, fe := range []byte{0, 2} {
+			d.CompactFalseElem = fe
+			if bytes.Equal(thriftspec.Encode(p, d, dec), got) {
+				return true
+			}
+		}
+		return false
+	}
+	if try(thriftspec.Dialect{}) {
+		return result{}
+	}
+	if D != (thriftspec.Dialect{}) && try(D) {
+		return result{excl: exercised(enc, D)}
+	}
+	return result{fail: &evid.Failure{Oracle: "Marshal(" + p.String() + ", v) is a specification encoding of v's content (any map entry order)", Class: "bytes-mismatch",
+		Observed: trunc(evid.Hex(got)), Expected: trunc("an encoding of " + thriftspec.Describe(tree) + " such as " + evid.Hex(enc(D)))}}
 }
 
 // feed gives the library the specification's bytes; while clauses are listed
